@@ -13,8 +13,14 @@ import (
 // cannot cause a false alarm: the reference interpreter evaluates the
 // resulting AST and the implementation under test runs a *rendering* of the
 // same AST, never the original text.
-func Parse(src string) (p *Prog, err error) {
+func Parse(src string) (p *Prog, err error) { return ParseBase(src, 0) }
+
+// ParseBase is Parse with node ids starting after base, so that the nodes of
+// two programs that run in one reference session (reflua.Session) can be told
+// apart.
+func ParseBase(src string, base int) (p *Prog, err error) {
 	ps := &parser{b: NewB()}
+	ps.b.p.next = base
 	defer func() {
 		if r := recover(); r != nil {
 			if pe, ok := r.(parseError); ok {
